@@ -25,6 +25,9 @@ type variant struct {
 	toOrig  []int // index returned -> base index; -1: the added shard
 	removed int   // vRemoval: base index that was dropped
 	desc    string
+	// rescaled: the greatest common divisor of the variant's weights differs
+	// from that of the base map (coverage counting only).
+	rescaled bool
 }
 
 func newSelector(c *run.Case, list []sharding.Shard, what string) sharding.ShardSelector {
@@ -83,11 +86,23 @@ func selectorEngine(w *run.Worker) {
 		default:
 			n = r.Range(6, 12)
 		}
-		weightMode := r.Pick(0, 1, 2, 3, 4, 5, 5, 6)
+		weightMode := r.Pick(0, 1, 2, 3, 4, 5, 5, 6, 7)
 		if tieCase {
-			weightMode = r.Pick(0, 0, 4, 6, 6, 6)
+			weightMode = r.Pick(0, 0, 4, 6, 6, 6, 7, 7, 7)
 		}
-		base := genMap(r, n, weightMode, nil)
+		var base []sharding.Shard
+		var factor uint32 // weightMode 7: the common factor of the weight grid
+		if weightMode == 7 {
+			base = genMap(r, n, 0, nil)
+			var ws []uint32
+			ws, factor = genScaledWeights(r, n)
+			for i := range base {
+				base[i].Weight = ws[i]
+			}
+			w.Count("sel_maps_scaled_weights", 1)
+		} else {
+			base = genMap(r, n, weightMode, nil)
+		}
 		fp := mapFingerprint(base)
 		c.Desc("n=%d weightMode=%d tieCase=%v map=%s", n, weightMode, tieCase, showMap(base))
 		w.Count("sel_maps", 1)
@@ -174,7 +189,13 @@ func selectorEngine(w *run.Worker) {
 			avoid[s.Key] = true
 		}
 		for a := r.Range(2, 3); a > 0; a-- {
-			add := genMap(r, 1, r.Pick(weightMode, weightMode, 5), avoid)[0]
+			var add sharding.Shard
+			if am := r.Pick(weightMode, weightMode, 5); am == 7 {
+				add = genMap(r, 1, 0, avoid)[0]
+				add.Weight = scaledAdditionWeight(r, factor)
+			} else {
+				add = genMap(r, 1, am, avoid)[0]
+			}
 			pos := r.Intn(n + 1)
 			var l []sharding.Shard
 			var to []int
@@ -191,6 +212,20 @@ func selectorEngine(w *run.Worker) {
 			if s := newSelector(c, l, "addition"); s != nil {
 				variants = append(variants, &variant{kind: vAddition, sel: s, list: l, toOrig: to, desc: fmt.Sprintf("addition of %s:%d at position %d", showKey(add.Key), add.Weight, pos)})
 			}
+		}
+
+		baseGCD := weightsGCD(base)
+		rescaledVariants := 0
+		for _, v := range variants {
+			if v.kind == vRemoval || v.kind == vAddition {
+				v.rescaled = weightsGCD(v.list) != baseGCD
+				if v.rescaled {
+					rescaledVariants++
+				}
+			}
+		}
+		if rescaledVariants > 0 {
+			w.Count("sel_maps_with_rescaled_variant", 1)
 		}
 
 		// Hashes.
@@ -229,6 +264,22 @@ func selectorEngine(w *run.Worker) {
 			for _, h := range ties {
 				hs = append(hs, hv{h, "searchedtie"})
 			}
+			// Near ties: the two best shards within a relative 2^-13. Exact
+			// ties at the map's own scale only show the tie-break order;
+			// near ties are where the removal / addition relations depend on
+			// every survivor's score being the SAME number in the smaller /
+			// larger map, to the last bit.
+			near, ntries := mm.findNearTies(r, 60000, 48)
+			w.Count("sel_neartie_search_tries", int64(ntries))
+			if len(near) > 0 {
+				w.Count("sel_maps_with_nearties", 1)
+				if rescaledVariants > 0 {
+					w.Count("sel_maps_with_nearties_and_rescaled_variant", 1)
+				}
+			}
+			for _, h := range near {
+				hs = append(hs, hv{h, "neartie"})
+			}
 		}
 
 		violations := 0
@@ -238,16 +289,18 @@ func selectorEngine(w *run.Worker) {
 				w.Count(k, v)
 			}
 		}()
+		hashClass := ""
 		bad := func(sig string, h uint64, v *variant, format string, a ...any) {
 			violations++
-			c.Violation(sig, "%s\nhash=%#016x\nbase map=%s\nvariant: %s, list=%s\ngenerator's model of the base map at this hash: %s",
-				fmt.Sprintf(format, a...), h, showMap(base), v.desc, showMap(v.list), mm.describe(h))
+			c.Violation(sig, "%s\nhash=%#016x (%s)\nbase map=%s\nvariant: %s, list=%s\ngenerator's model of the base map at this hash: %s",
+				fmt.Sprintf(format, a...), h, hashClass, showMap(base), v.desc, showMap(v.list), mm.describe(h))
 		}
 		for _, e := range hs {
 			if violations >= 4 {
 				break
 			}
 			h := e.h
+			hashClass = e.class
 			o := baseSel.GetShard(h)
 			cnt["sel_evals"]++
 			cnt["sel_"+e.class+"_hashes"]++
@@ -278,6 +331,9 @@ func selectorEngine(w *run.Worker) {
 					cnt["sel_tie_hashes_three_way"]++
 				}
 			}
+			// closeCall: a hash that was searched for because the model puts
+			// the two best shards of the base map on (almost) the same score.
+			closeCall := e.class == "neartie" || e.class == "searchedtie"
 			for _, v := range variants {
 				j := v.sel.GetShard(h)
 				if j < 0 || j >= len(v.list) {
@@ -297,16 +353,32 @@ func selectorEngine(w *run.Worker) {
 						bad("rendezvousShardSelector.GetShard:depends-on-listing-order", h, v, "base listing routes to %s (base index %d), permuted listing routes to %s (returned index %d = base index %d)", showKey(base[o].Key), o, showKey(v.list[j].Key), j, t)
 					}
 				case vRemoval:
+					// "Removing a shard re-routes only objects that were
+					// assigned to it": an object of any other shard stays.
 					if o == v.removed {
 						cnt["sel_removal_owner_rerouted"]++
 						break
 					}
 					cnt["sel_removal_checks"]++
+					if closeCall {
+						cnt["sel_closecall_removal_checks"]++
+						if v.rescaled {
+							cnt["sel_closecall_rescaled_removal_checks"]++
+						}
+					}
 					if t != o {
 						bad("rendezvousShardSelector.GetShard:removal-reroutes-object-of-other-shard", h, v, "hash was routed to %s (base index %d); after removing %s (base index %d) it is routed to %s (base index %d)", showKey(base[o].Key), o, showKey(base[v.removed].Key), v.removed, showKey(v.list[j].Key), t)
 					}
 				case vAddition:
+					// "adding a shard re-routes objects only to the new
+					// shard": the answer is the old one or the new shard.
 					cnt["sel_addition_checks"]++
+					if closeCall {
+						cnt["sel_closecall_addition_checks"]++
+						if v.rescaled {
+							cnt["sel_closecall_rescaled_addition_checks"]++
+						}
+					}
 					if t == -1 {
 						cnt["sel_addition_moved_to_new"]++
 					} else if t != o {
